@@ -457,13 +457,13 @@ var clientStubs = []string{"lineartime", "decryptstub", "asn1havoc", "kdcstub", 
 func regC10(add addFn, p pFn) {
 	add(&Instance{Property: "C10", Name: "cached-ticket", Entry: "client.VH_C10_CachedTicket", Params: p("maxseq", 1, "maxstr", 1, "maxbits", 4), Stubs: clientStubs, Logic: "QF_UFBV", Replay: "stubbed", TimeoutS: 1200,
 		Reach: []string{"no-kdc-contact", "renewal-attempted", "renewed"}, Bound: "one cache entry with arbitrary start/end/renew-till instants, arbitrary clock; renewal runs the real TGS exchange against a KDC stub (reply / network error / KRB-ERROR), decoded sequences 0..1, strings 0..1"})
-	for _, k := range []int{0, 1, 6, 7, 8} {
+	for _, k := range []int{0, 1, 6, 7, 8, 20} {
 		tier := "quick"
-		add(&Instance{Property: "C10", Name: "tgs-referral-chain-k" + itoa(k), Entry: "client.VH_C10_TGSReferralChain", Params: p("k", k, "maxseq", 0, "strlens", 2, "maxbits", 4), Stubs: clientStubs, Logic: "QF_UFBV", Replay: "stubbed", Tier: tier, TimeoutS: 1200, Unwind: 24,
-			Reach: []string{"failed"}, Bound: "a KDC answering k times with a referral TGT to an arbitrary (symbolic) realm, then with the ticket; the encrypted reply parts (nonce, realm, times, key) arbitrary; chain lengths 0,1,6,7,8"})
+		add(&Instance{Property: "C10", Name: "tgs-referral-chain-k" + itoa(k), Entry: "client.VH_C10_TGSReferralChain", Params: p("k", k, "maxseq", 0, "strlens", 2, "maxbits", 4), Stubs: clientStubs, Logic: "QF_UFBV", Replay: "stubbed", Tier: tier, TimeoutS: 1200, Unwind: 64,
+			Reach: []string{"failed"}, Bound: "a KDC answering k times with a referral TGT to an arbitrary (symbolic) realm, then with the ticket; the encrypted reply parts (nonce, realm, times, key) arbitrary; chain lengths 0,1,6,7,8,20; bounded = at most 16 requests"})
 	}
-	for _, k := range []int{0, 1, 7, 9} {
-		add(&Instance{Property: "C10", Name: "as-referral-chain-k" + itoa(k), Entry: "client.VH_C10_ASReferralChain", Params: p("k", k, "maxseq", 0, "strlens", 2, "maxbits", 4), Stubs: clientStubs, Logic: "QF_UFBV", Replay: "stubbed", TimeoutS: 1200, Unwind: 24,
+	for _, k := range []int{0, 1, 7, 9, 20} {
+		add(&Instance{Property: "C10", Name: "as-referral-chain-k" + itoa(k), Entry: "client.VH_C10_ASReferralChain", Params: p("k", k, "maxseq", 0, "strlens", 2, "maxbits", 4), Stubs: clientStubs, Logic: "QF_UFBV", Replay: "stubbed", TimeoutS: 1200, Unwind: 64,
 			Reach: []string{"done"}, Bound: "a KDC answering k times KDC_ERR_WRONG_REALM with an arbitrary realm, then a network error"})
 	}
 }
@@ -487,6 +487,26 @@ func regC16(add addFn, p pFn) {
 		add(&Instance{Property: "C16", Name: "boolean-n" + itoa(n), Entry: "config.VH_C16_ParseBoolean", Params: p("n", n), Bound: "EVERY printable ASCII string of exactly n bytes"})
 	}
 	add(&Instance{Property: "C16", Name: "boolean-n6", Entry: "config.VH_C16_ParseBoolean", Params: p("n", 6), Tier: "thorough", TimeoutS: 1500, Bound: "every printable ASCII string of 6 bytes (spellings padded with blanks)"})
+	add(&Instance{Property: "C16", Name: "duration-d1", Entry: "config.VH_C16_ParseDuration", Params: p("digits", 1, "form", -1), Reach: []string{"parsed"}, TimeoutS: 600,
+		Bound: "every documented duration format (N; h:m; h:m:s; every non-empty combination NdNhNmNs) with every choice of 1-digit numbers, one blank byte on each side"})
+	add(&Instance{Property: "C16", Name: "duration-d2", Entry: "config.VH_C16_ParseDuration", Params: p("digits", 2, "form", -1), Reach: []string{"parsed"}, TimeoutS: 600,
+		Bound: "as duration-d1 with 2-digit numbers"})
+	add(&Instance{Property: "C16", Name: "duration-d4", Entry: "config.VH_C16_ParseDuration", Params: p("digits", 4, "form", -1), Tier: "thorough", Reach: []string{"parsed"}, TimeoutS: 1500,
+		Bound: "as duration-d1 with 4-digit numbers"})
+	for g, gn := range []string{"bool", "duration", "int", "string"} {
+		reach := []string{"parsed"}
+		if g == 2 {
+			reach = append(reach, "rejected")
+		}
+		add(&Instance{Property: "C16", Name: "libdefaults-" + gn, Entry: "config.VH_C16_LibDefaultsRelation", Params: p("group", g, "form", -1), Reach: reach, TimeoutS: 600,
+			Bound: "one relation `key = value` for every " + gn + " key of [libdefaults], arbitrary valid value (bool: one-letter spellings; duration: 1-digit numbers in every format; int: 1-5 digits; string: 2 printable bytes), one blank byte around key and value; all 24 scalar fields and the lengths of the 5 list fields compared with the defaults"})
+	}
+	for _, ws := range []int{0, 1} {
+		add(&Instance{Property: "C16", Name: "sections-s2-ws" + itoa(ws), Entry: "config.VH_C16_Sections", Params: p("sections", 2, "ws", ws, "lead", ws), Reach: []string{"loaded"}, TimeoutS: 600,
+			Bound: "files of 2 sections in every order (libdefaults/realms/domain_realm at most once, unknown sections named by 1-2 letters), each empty or with one relation, " + itoa(ws) + " blank byte(s) around each header, a 4-byte blank-or-comment line (arbitrary printable text) after every header and relation; regexp matching modelled by NFA simulation of the compiled pattern over ASCII text"})
+	}
+	add(&Instance{Property: "C16", Name: "sections-s3-ws1", Entry: "config.VH_C16_Sections", Params: p("sections", 3, "ws", 1, "lead", 1), Tier: "thorough", Reach: []string{"loaded"}, TimeoutS: 3000, MaxPaths: 400000,
+		Bound: "as sections-s2 with 3 sections"})
 	add(&Instance{Property: "C16", Name: "realm-lines-v2", Entry: "config.VH_C16_RealmLines", Params: p("values", 2), Reach: []string{"done"}, Bound: "2 kdc lines with values of 1..2 characters over {h,:,*}"})
 	add(&Instance{Property: "C16", Name: "realm-lines-v3", Entry: "config.VH_C16_RealmLines", Params: p("values", 3), Tier: "thorough", Reach: []string{"done"}, Bound: "3 kdc lines"})
 }
